@@ -11,7 +11,7 @@
    yet (they need the Coq `Spec.decode` of C04, which is another file). *)
 From Coq Require Import List NArith String.
 From Wbxml Require Import Model.Codec Model.TablesDefs Model.EncWbxml Model.TreeNorm Proofs.EncWbxmlProofs Proofs.EncWbxmlSerialize Proofs.EncWbxmlDenote Proofs.EncWbxmlAbs Proofs.EncWbxmlStrict2 Proofs.EncWbxmlDenote2
-     Model.EncWbxmlEvents Proofs.EncWbxmlTblOk Proofs.EncWbxmlDenote3 Proofs.EncWbxmlAbs4 Proofs.EncWbxmlDenote4 Proofs.EncWbxmlAbs5 Model.EncWbxmlTables Proofs.EncWbxmlDenote5 Proofs.EncWbxmlCanon.
+     Model.EncWbxmlEvents Proofs.EncWbxmlTblOk Proofs.EncWbxmlDenote3 Proofs.EncWbxmlAbs4 Proofs.EncWbxmlDenote4 Proofs.EncWbxmlAbs5 Model.EncWbxmlTables Proofs.EncWbxmlDenote5 Proofs.EncWbxmlCanon Proofs.EncWbxmlDenoteWv.
 From Wbxml Require Model.Parser Model.Spec.
 Import ListNotations.
 Local Open Scope N_scope.
@@ -510,3 +510,57 @@ Example C06_si_datetime_example :
                                                                (Parser.AttrTok 0 17 (Parser.B "class"), Parser.B "x")];
        Parser.EvEndElt (Parser.TagTok 0 5 (Parser.B "si")); Parser.EvEndDoc].
 Proof. cbv zeta. repeat split; vm_compute; reflexivity. Qed.
+
+(* TYPED VALUES, second class: WIRELESS VILLAGE (WV CSP 1.1 / 1.2), typed CONTENT.  The text that is the FIRST child of an
+   element the encoder's switch classifies as integer / date-and-time is written as OPAQUE (minimal big-endian integer
+   of atol / strtol(16); six packed octets) and printed by the decoder in canonical form: the decoded text is
+   canon_wv_int (text) = Spec.spec_wv_integer (payload) ("0200" -> "200", "0x10" -> "16", " 7" -> "7") resp.
+   canon_wv_date (text) ("20011019T095031" -> "20011019T095031Z"); a date-time containing '-', '+', ':' or ending in 'Z'
+   is written inline as it is.  A text that is the name of an extension token is written as EXT_T_0 and printed as that
+   name (exts_ok: the row is found again under its 8-bit token).  All other text is ordinary (string table, merge_chars).
+   The encoder's switch is INCLUDED in the decoder's lists of typed elements (wv_switch_spec: the decoder knows three more
+   integer elements, which the encoder writes as text - harmless, the typed rule only applies to OPAQUE).
+   PARTIAL: elements carry no attributes in this instance (aok_none); element and text nodes only. *)
+Theorem C06_strict_decoding_yields_normalised_source_typed_wv_partial : forall tblb TBL L o tag attrs ch bs,
+  let e := enc_env (to_blang L) o in
+  is_wv (e_lang e) = true -> exts_ok L = true -> tag_tbl_ok e = true ->
+  tree_ok5 L aok_none (tok_wv (o_keep_ws o)) 0 true None (NElt tag attrs ch) = true ->
+  find (fun x => l_id x =? l_id L) TBL = Some L ->
+  o_version o < 4 -> header_public_id e < 4294967296 -> header_public_id e <> 0 ->
+  (match header_pid e with Some p => okb p = true | None => True end) ->
+  len bs < 4294967296 ->
+  enc_wbxml tblb (to_blang L) o [NElt tag attrs ch] = EOk bs ->
+  exists d evs, bs = Spec.serialize d /\ Spec.strict_doc d = true /\
+            Spec.denote_with TBL (Some L) d = Some evs /\ Spec.decode_lang TBL (l_id L) bs = Some evs /\
+            merge_chars evs = merge_chars (doc_events_wv L e (o_keep_ws o) (NElt tag attrs ch)).
+Proof. exact strict_decode_of_encoding_wv. Qed.
+Print Assumptions C06_strict_decoding_yields_normalised_source_typed_wv_partial.
+
+Theorem C06_wv_encoder_switch_within_decoder_lists : forall p t,
+  ((wv_data_type p t =? 2) = true -> Spec.pair_in (p, t) Spec.wv_int_elts = true) /\
+  ((wv_data_type p t =? 3) = true -> Spec.pair_in (p, t) Spec.wv_date_elts = true /\ Spec.pair_in (p, t) Spec.wv_int_elts = false).
+Proof. exact wv_switch_spec. Qed.
+Print Assumptions C06_wv_encoder_switch_within_decoder_lists.
+
+(* where it matters: <R><C>0200</C><D>20011019T095031</D></R> with C an integer element (page 0, token 0x0B) and D a
+   date element (page 0, token 0x11): decoded as "200" and "20011019T095031Z" *)
+Example C06_wv_typed_content_example :
+  let L := mk_lang 2301 16 None None None (Some [mk_tag "R"%string 0 5 0; mk_tag "C"%string 0 11 0; mk_tag "D"%string 0 17 0]) None None None (Some []) in
+  let o := mk_opts 1 false false false in
+  let t := NElt (TagTok 0 5 0 (Parser.B "R")) []
+                [NElt (TagTok 0 11 0 (Parser.B "C")) [] [NText (Parser.B "0200")];
+                 NElt (TagTok 0 17 0 (Parser.B "D")) [] [NText (Parser.B "20011019T095031")]] in
+  is_wv (to_blang L) = true /\ exts_ok L = true /\ tree_ok5 L aok_none (tok_wv false) 0 true None t = true /\
+  canon_wv_int (Parser.B "0200") = Some (Parser.B "200") /\ canon_wv_int (Parser.B "0x10") = Some (Parser.B "16") /\
+  exists bs, enc_wbxml [] (to_blang L) o [t] = EOk bs /\
+    Spec.decode_lang [L] 2301 bs = Some (doc_events_wv L (enc_env (to_blang L) o) false t) /\
+    doc_events_wv L (enc_env (to_blang L) o) false t
+      = [Parser.EvStartDoc 106 2301; Parser.EvStartElt (Parser.TagTok 0 5 (Parser.B "R")) [];
+         Parser.EvStartElt (Parser.TagTok 0 11 (Parser.B "C")) []; Parser.EvChars (Parser.B "200"); Parser.EvEndElt (Parser.TagTok 0 11 (Parser.B "C"));
+         Parser.EvStartElt (Parser.TagTok 0 17 (Parser.B "D")) []; Parser.EvChars (Parser.B "20011019T095031Z"); Parser.EvEndElt (Parser.TagTok 0 17 (Parser.B "D"));
+         Parser.EvEndElt (Parser.TagTok 0 5 (Parser.B "R")); Parser.EvEndDoc].
+Proof.
+  cbv zeta. split; [vm_compute; reflexivity|]. split; [vm_compute; reflexivity|]. split; [vm_compute; reflexivity|].
+  split; [vm_compute; reflexivity|]. split; [vm_compute; reflexivity|].
+  eexists. split; [vm_compute; reflexivity|]. split; vm_compute; reflexivity.
+Qed.
